@@ -3,7 +3,7 @@
 From Coq Require Import List NArith ZArith Bool.
 Import ListNotations.
 From SAV.base Require Import Tree.
-From SAV.sql Require Import Ident Reflect.
+From SAV.sql Require Import Ident Reflect ReflectIndex.
 
 (* str.isalnum() for the non-ASCII characters the generator uses (< U+0250, and U+212A) *)
 Definition run_uni (c : N) : bool :=
@@ -63,6 +63,11 @@ Definition run_with (p : prep) (tab : afftab) (t : tree) : tree :=
                                        match render_type tab r2 with Some t2 => L [enc_str t2] | None => L [] end]
                      | None => L []
                      end]
+      | None => bad_input
+      end
+  | L [I 4%Z; text] =>                                  (* partial_pred_re.search over a CREATE INDEX text *)
+      match dec_str text with
+      | Some s => enc_optstr (pred_search s)
       | None => bad_input
       end
   | _ => bad_input
